@@ -39,6 +39,13 @@ func GenGame(prop string, seed uint64) *Scenario {
 		g.WIncMs = rng.LogRange(remain, remain*100)
 	}
 	g.BIncMs = g.WIncMs
+	if rng.Chance(0.5) {
+		// time-odds games / GUIs that send only one side's increment
+		g.BIncMs = []int64{0, rng.LogRange(1, max64(remain, 2)), rng.LogRange(1, max64(remain*100, 2))}[rng.Intn(3)]
+		if rng.Chance(0.3) {
+			g.WIncMs = 0
+		}
+	}
 	switch rng.Intn(3) {
 	case 0:
 		g.MovesToGo = 0
